@@ -67,5 +67,41 @@ def replay_walk(case):
     check(Ctx(PROPERTY, "walk", "quick", 0, 0, 1), tuple(case))
 
 
+# ---------------------------------------------------------------- the same histories over real loopback sockets
+def check_real(ctx, case):
+    """Fidelity of simnet and of the model: the same generated histories on the stock event loop over real TCP."""
+    import asyncio
+    program, backend, ipv6, block, tape = case
+    history = walk.concretise(list(program) + PROBES, ipv6=False)
+    recs = []
+
+    async def go():
+        with harness.TempDirs() as td:
+            tmp = td.new() if backend != "mem" else None
+            out = await walk.execute(None, history, backend=backend, tmp=tmp, ipv6=False, block_size=block, records=recs,
+                                     port=0, wait=0.25, settle=0.03)
+            await walk.finish(*out[2:])
+
+    try:
+        asyncio.run(go())
+    finally:
+        ctx.count([history], walk.classify(history) >= 2,
+                  sample=dict(backend=backend, real_sockets=True, history=[(r["cmd"], r.get("got")) for r in recs]),
+                  classes=["real_be_" + backend])
+        ctx.extra["traces_validated_against_impl"] = ctx.extra.get("traces_validated_against_impl", 0) + 1
+
+
+def part_real(ctx):
+    n = 12 if ctx.tier == "quick" else 150
+    real_case = st.tuples(st.lists(STEP, min_size=4, max_size=14), st.sampled_from(["mem", "fs", "afs"]), st.just(False),
+                          st.sampled_from([4, 8192]), st.just([]))
+    hyp_run(ctx, real_case, lambda c: check_real(ctx, c), n, name="real")
+
+
+def replay_real(case):
+    from vlib.runner import Ctx
+    check_real(Ctx(PROPERTY, "real", "quick", 0, 0, 1), tuple(case))
+
+
 def plan(tier):
-    return [("walk", 16)]
+    return [("walk", 16), ("real", 8)]
